@@ -348,3 +348,16 @@ def vec_dot_normal(t):
         return None
 
     return T.subst(t, fn)
+
+
+def batch_reductions(p, batch_syms=("B",), within=None):
+    """Reductions (sum, mean, ...) that run over a batch axis: in a row-wise function every row's value may depend on that
+    row only, so a reduction over the batch axis mixes the rows.  `within`: only reductions executed while a function whose
+    qualified name contains this string is on the call stack."""
+    out = []
+    for site, op, dims, stack in p.interp.reductions:
+        if within is not None and not any(within in q for q in stack):
+            continue
+        if any(d in batch_syms for d in dims):
+            out.append((site, op, dims))
+    return out
